@@ -460,6 +460,8 @@ func (r *resolver) findMatch(ctx context.Context, requirements []resolve.Version
 			if err != nil {
 				return resolve.Version{}, err
 			}
+			// The slice belongs to the client: order a copy.
+			versions = slices.Clone(versions)
 			resolve.SortVersions(versions)
 			slices.Reverse(versions)
 		}
